@@ -31,7 +31,7 @@ CHECKS = {
          "runtime monitor: balance/custody reference model + announcement oracle + offline conservation"),
  "C06": ("Runtime monitoring, finite matrix enumerated completely: 43 administrative entry points (incl. migrate after the ownership moved inside the window) x 5 role-transfer histories x up to 8 principals x roles initially distinct / in one hand; "
          "the authorisation forest the code asks for is recorded and replayed with the principal substituted (or withheld, or recorded for other "
-         "arguments) at a checkpoint; refused calls diffed against the pre-state; roles re-read after 1.3 M ledgers and after every temporary entry has expired.",
+         "arguments) at a checkpoint; refused calls diffed against the pre-state; roles re-read after 1.3 M ledgers and after every temporary entry has expired; entry points outside the pinned interface are called by a stranger, after which every role must read as before.",
          "runtime monitor: recorded-authorisation replay with principal substitution over the full entry-point x principal x history matrix"),
  "C07": ("Runtime monitoring, finite matrix enumerated completely: 16 user-facing entry points x authorisers (named address, counterparty, contract "
          "owner, stranger, nobody, everyone but the named address, named address for other arguments - one variant per argument position), states without "
